@@ -116,9 +116,19 @@ fn write(
 ) -> std::io::Result<usize> {
     let initial_state = state.clone();
 
+    let mut progress = false;
     for printable in state.strip_next(buf) {
         let possible = printable.len();
-        let written = raw.write(printable)?;
+        let written = match raw.write(printable) {
+            Ok(written) => written,
+            // Report what was delivered so far; nothing of this run was written
+            Err(_) if progress => 0,
+            Err(err) => {
+                // Nothing was consumed, allow the caller to retry with the same `buf`
+                *state = initial_state;
+                return Err(err);
+            }
+        };
         if possible != written {
             let divergence = &printable[written..];
             let offset = offset_to(buf, divergence);
@@ -127,6 +137,7 @@ fn write(
             state.strip_next(consumed).last();
             return Ok(offset);
         }
+        progress = true;
     }
     Ok(buf.len())
 }
